@@ -372,7 +372,11 @@ func (P *Program) runPath(job *Job, fn *ssa.Function, item WorkItem, sol *smt.So
 		}
 		if pr.Status == StViolation && pr.Model != nil {
 			func() {
-				defer func() { recover() }()
+				defer func() {
+					if r := recover(); r != nil && os.Getenv("VERIF_DEBUG") != "" {
+						fmt.Fprintf(os.Stderr, "snapshotForReplay: %v\n%s\n", r, debug.Stack())
+					}
+				}()
 				it.snapshotForReplay(pr.Model)
 			}()
 			if it.replay != nil {
